@@ -39,9 +39,9 @@ WEIGHTS = {
             "size": 2, "abort_size": 2, "abort_sim": 2, "regen": 1, "report": 1, "tick": 1, "rebuild": 2, "pristine": 0.6, "reconf": 3,
             "ghe_new": 1.5, "poke": 1.5, "other_leap": 0.5},
     "C12": {"find": 1, "redesign": 1, "abort_find": 1, "other": 1.5, "nominal": 1, "sim": 3, "size": 2, "abort_size": 1, "regen": 1,
-            "report": 4, "tick": 1, "rebuild": 0, "poke": 2, "abort_sim": 1},
-    "C19": {"find": 1, "redesign": 1, "sim": 2, "size": 1, "regen": 1, "report": 5, "tick": 2, "rebuild": 0, "other": 1.5, "poke": 1.5,
-            "other_leap": 0.7},
+            "report": 4, "tick": 1, "rebuild": 0, "poke": 2, "abort_sim": 1, "deferred_report": 1.5},
+    "C19": {"find": 1, "redesign": 1, "sim": 2, "sim_hourly": 1, "size": 1, "regen": 1, "report": 5, "tick": 2, "rebuild": 0, "other": 1.5,
+            "poke": 1.5, "other_leap": 0.7, "deferred_report": 2},
     "C01": {"find": 2, "redesign": 2, "abort_find": 2, "other": 1.5, "nominal": 2, "rebuild": 2, "tick": 0, "reconf": 3},
     "C02": {"find": 2, "redesign": 1, "abort_find": 1, "nominal": 1, "rebuild": 1, "reconf": 1},
     "C05": {"find": 2, "redesign": 1, "abort_find": 1, "nominal": 1, "rebuild": 1, "ghe_new": 2, "size": 1, "regen": 1, "sim": 1},
@@ -82,7 +82,7 @@ def draw_plan(rng: random.Random, prop: str, tier: str = "quick", methods=None, 
         ops.append({"op": "reconf", "mgr": "A", "to": "base"})
     kinds = [k for k, v in w.items() if v > 0]
     weights = [w[k] for k in kinds]
-    hourly_ok = cfg["simulation"]["num_months"] == 12
+    hourly_ok = cfg["simulation"]["num_months"] <= 24
     lo, hi = cfg["simulation"]["min_height"], cfg["simulation"]["max_height"]
     for _ in range(n_ops):
         k = rng.choices(kinds, weights)[0]
@@ -108,6 +108,8 @@ def draw_plan(rng: random.Random, prop: str, tier: str = "quick", methods=None, 
             hh = gen.r3(rng.uniform(lo, hi))
             ops.append({"op": "abort_sim", "mgr": "A", "method": "HYBRID", "H": hh, "k": rng.randint(1, 900)})
             ops.append({"op": "sim", "mgr": "A", "method": "HYBRID", "H": hh})
+        elif k == "deferred_report":
+            ops.append({"op": "deferred_report", "mgr": "A", "dir": f"d{len(ops)}", "move_on": rng.choice(["reconf", "reconf", "sim", "nominal"])})
         elif k == "poke":
             ops.append({"op": "poke", "mgr": "A", "setter": rng.choice(gen.SETTERS + ["borehole", "borehole", "design"])})
             if prop in ("C12", "C19", "C13") and rng.random() < 0.6:
@@ -188,6 +190,18 @@ def draw_plan(rng: random.Random, prop: str, tier: str = "quick", methods=None, 
                {"op": "reconf", "mgr": "A", "to": "variant"}]
         if rng.random() < 0.5:
             ops.append({"op": "redesign", "mgr": "A"})
+    elif prop == "C02" and rng.random() < 0.2:
+        # capped run first, then the same lot without a cap and with loads far beyond the land (policy on): the second run must
+        # still return the largest candidate of the whole lot
+        cfg = gen.draw_cfg(rng, methods=["NEARSQUARE", "NEARSQUARE", "RECTANGLE"], target="huge", months=12)
+        cfg["simulation"]["max_boreholes"] = None
+        cfg["simulation"]["continue_if_design_unmet"] = True
+        variant = copy.deepcopy(cfg)
+        variant["simulation"]["max_boreholes"] = rng.randint(3, 12)
+        variant["variant_of"] = ["simulation.max_boreholes"]
+        variant.pop("target", None)
+        ops = [{"op": "other", "cfg_key": "variant"}, {"op": "build", "mgr": "A", "order": order, "decoys": [], "cfg_key": "base"},
+               {"op": "find", "mgr": "A"}]
     elif prop == "C13" and rng.random() < 0.07:
         # constrained pair (the mutable default keep_contour=[True, False] named in the property's anchors): a polygon-constrained
         # design without no-go zones runs first, then one whose no-go wall lies on the centre line of the lot (grid points of
@@ -612,6 +626,12 @@ def _check_find(ctx: Ctx, i, op, out, cfg):
                 dom = mgr._design.coordinates_domain
                 cap = sim["max_boreholes"]
                 want_n = max(len(c) for c in dom if cap is None or len(c) < cap)
+                if method == "NEARSQUARE":
+                    # independent of the (possibly shared, possibly already trimmed) candidate list: n x n and n x (n+1) grids
+                    # for n = 1 .. floor(length / b) + 1
+                    nn = int(math.floor(cfg["geometry"]["length"] / cfg["geometry"]["b"])) + 1
+                    sizes = [k * k for k in range(1, nn + 1)] + [k * (k + 1) for k in range(1, nn + 1)]
+                    want_n = max(x for x in sizes if cap is None or x < cap)
                 if nbh != want_n:
                     ctx.violation(Violation("C02", "unmet_continue_wrong_pick", f"too_large (real physics): returned {nbh} boreholes, "
                                                                               f"largest allowed is {want_n}", site=f"{method}:too_large"),
@@ -1351,6 +1371,85 @@ def op_report(ctx: Ctx, i, op):
         ctx.violation(Violation(ctx.prop, "report_unreadable", f"{type(e).__name__}: {e} after {ctx.shape[:-1]}", site="report"), i)
 
 
+def op_deferred_report(ctx: Ctx, i, op):
+    """A parametric study on one manager: results of the current design are prepared and kept, the manager moves on (another
+    configuration is searched / the field object is simulated elsewhere), and only then the kept result set is written.
+    The files must describe the design as it was when its results were prepared."""
+    name = op["mgr"]
+    g = _ghe_of(ctx, name)
+    if g is None:
+        ctx.bump("op_skipped_no_design")
+        ctx.log.add("deferred_report", None, "skipped")
+        return
+    mgr = ctx.mgrs[name]
+    st = ctx.state[name]
+    cfg = st["cfg"]
+    try:
+        with Quiet():
+            mgr.prepare_results("proj", "note", "auth", "iter")
+            gg, gb = g.grab_g_function(g.B_spacing / float(g.bhe.b.H))
+    except Exception as e:  # noqa: BLE001
+        ctx.log.add("deferred_report", None, ["prepare raised", type(e).__name__])
+        return
+    kept = mgr.results
+    snap = {"g_rows": [[float(a), float(b), float(c)] for a, b, c in zip(gg.x, gg.y, gb.y)],
+            "coords": [[float(c[0]), float(c[1])] for c in g.gFunction.bore_locations], "H": float(g.bhe.b.H),
+            "loads": gen.expand_loads(cfg["loads"]), "max": float(max(g.hp_eft)), "min": float(min(g.hp_eft))}
+    # the manager moves on
+    if op["move_on"] == "reconf":
+        op_reconf(ctx, i, {"op": "reconf", "mgr": name, "to": "variant" if st["cfg"] == plan_cfg(ctx.plan, "base") else "base"})
+    elif op["move_on"] == "nominal":
+        op_nominal(ctx, i, {"op": "nominal", "mgr": name, "height": gen.r3((cfg["simulation"]["min_height"] + cfg["simulation"]["max_height"]) / 2)})
+    else:
+        _sim_result(g, "HYBRID", gen.r3((cfg["simulation"]["min_height"] + cfg["simulation"]["max_height"]) / 2))
+        _touch(ctx, name)
+    outdir = ctx.root / op["dir"]
+    try:
+        with Quiet():
+            kept.write_all_output_files(output_directory=outdir, file_suffix="")
+    except Exception as e:  # noqa: BLE001
+        ctx.violation(Violation(ctx.prop, "report_raised", f"{type(e).__name__}: {e} when a kept result set is written later",
+                                site="deferred_report"), i)
+        return
+    files = _read_outputs(outdir)
+    ctx.bump("probe:kept_results_written_after_manager_moved_on")
+    ctx.log.add("deferred_report", op["move_on"], _normalise_outputs(files))
+    feats = {"outcome": "deferred"}
+    try:
+        summ = json.loads(files["SimulationSummary.json"])
+        rows = list(csv.reader(io.StringIO(files["BoreFieldData.csv"])))[1:]
+        grow = [[float(x) for x in r] for r in list(csv.reader(io.StringIO(files["Gfunction.csv"])))[1:]]
+        lrows = list(csv.reader(io.StringIO(files["Loadings.csv"])))[1:]
+    except Exception as e:  # noqa: BLE001
+        ctx.violation(Violation(ctx.prop, "report_unreadable", f"{type(e).__name__}: {e}", site="deferred_report"), i, feats)
+        return
+    if ctx.prop == "C19":
+        if not close(grow, snap["g_rows"])[0]:
+            ctx.violation(Violation("C19", "gfunction_table_not_simulated_curve", "Gfunction.csv of a result set written after the "
+                                    f"manager moved on ({op['move_on']}) is not the curve of the design it was prepared for",
+                                    site="deferred_report"), i, feats)
+        if len(rows) != len(snap["coords"]) or not close([[float(r[0]), float(r[1])] for r in rows], snap["coords"])[0]:
+            ctx.violation(Violation("C19", "borefield_table_not_selected_field", "BoreFieldData.csv of a kept result set changed",
+                                    site="deferred_report"), i, feats)
+        if len(lrows) != 8760 or any(float(r[4]) != snap["loads"][k] for k, r in enumerate(lrows)):
+            ctx.violation(Violation("C19", "loads_not_echoed", f"Loadings.csv of a kept result set: {len(lrows)} rows / values differ",
+                                    site="deferred_report"), i, feats)
+    if ctx.prop == "C12":
+        nbh = summ["ghe_system"]["number_of_boreholes"]
+        h = summ["ghe_system"]["active_borehole_length"]["value"]
+        if nbh != len(rows) or nbh != len(snap["coords"]):
+            ctx.violation(Violation("C12", "borehole_count_mismatch", f"kept result set: summary {nbh}, rows {len(rows)}, prepared for "
+                                                                      f"{len(snap['coords'])}", site="deferred_report"), i, feats)
+        if summ["ghe_system"]["total_drilling"]["value"] != nbh * h:
+            ctx.violation(Violation("C12", "total_drilling_mismatch", "kept result set", site="deferred_report"), i, feats)
+        if abs(h - snap["H"]) > 1e-9 or abs(summ["simulation_results"]["max_hp_eft"]["value"] - snap["max"]) > TOL or abs(
+                summ["simulation_results"]["min_hp_eft"]["value"] - snap["min"]) > TOL:
+            ctx.violation(Violation("C12", "reported_eft_not_at_reported_height",
+                                    f"kept result set written after the manager moved on ({op['move_on']}): height {h!r} / EFT "
+                                    f"{summ['simulation_results']['max_hp_eft']['value']:.4f} vs prepared {snap['H']!r} / {snap['max']:.4f}",
+                                    site="deferred_report"), i, feats)
+
+
 def _oracle_c12(ctx: Ctx, i, mgr, cfg, f, oc):
     from ghedesigner.enums import TimestepType
 
@@ -1606,7 +1705,7 @@ def op_twin(ctx: Ctx, i, op):
 
 
 OPS = {"build": op_build, "find": op_find, "redesign": op_redesign, "nominal": op_nominal, "abort_find": op_abort_find,
-       "other": op_other, "sim": op_sim, "size": op_size, "abort_size": op_abort_size, "pristine": op_pristine, "reconf": op_reconf, "ghe_new": op_ghe_new, "abort_sim": op_abort_sim, "poke": op_poke, "other_leap": op_other_leap, "pristine_resim": op_pristine_resim, "regen": op_regen, "tick": op_tick, "report": op_report,
+       "other": op_other, "sim": op_sim, "size": op_size, "abort_size": op_abort_size, "pristine": op_pristine, "reconf": op_reconf, "ghe_new": op_ghe_new, "abort_sim": op_abort_sim, "poke": op_poke, "other_leap": op_other_leap, "pristine_resim": op_pristine_resim, "deferred_report": op_deferred_report, "regen": op_regen, "tick": op_tick, "report": op_report,
        "twin": op_twin}
 
 
@@ -1648,7 +1747,7 @@ LEAVES = [("soil", "conductivity"), ("soil", "rho_cp"), ("soil", "undisturbed_te
           ("fluid", "temperature"), ("fluid", "concentration_percent"), ("borehole", "buried_depth"), ("borehole", "diameter"),
           ("pipe", "shank_spacing"), ("pipe", "conductivity"), ("pipe", "rho_cp"), ("pipe", "roughness"),
           ("simulation", "num_months"), ("simulation", "max_eft"), ("simulation", "min_eft"), ("design", "flow_rate"),
-          ("loads", "amp"), ("loads", "phase")]
+          ("loads", "amp"), ("loads", "phase"), ("simulation", "max_boreholes"), ("simulation", "continue_if_design_unmet")]
 
 
 def leaf_sweep_plans(seed: int, prop: str) -> list:
@@ -1683,7 +1782,13 @@ def _leaf_sweep_for(seed: int, prop: str, which: str) -> list:
             v = copy.deepcopy(cfg)
             v.pop("target", None)
             old = cfg[sec][key]
-            if key == "num_months":
+            if key == "max_boreholes":
+                new = 4 if factor > 1 else 9
+            elif key == "continue_if_design_unmet":
+                if factor < 1:
+                    continue
+                new = not old
+            elif key == "num_months":
                 new = 36 if factor > 1 else (12 if old != 12 else 24)
             elif key in ("undisturbed_temp", "max_eft", "min_eft", "temperature", "phase"):
                 new = gen.r3(old + (2.0 if factor > 1 else -2.0))
